@@ -1,0 +1,19 @@
+//go:build verif
+
+package utils
+
+import (
+	"github.com/projectcalico/calico/cni-plugin/pkg/types"
+	client "github.com/projectcalico/calico/libcalico-go/lib/clientv3"
+)
+
+// VerifClient, when set (verification harness only, -tags verif), supplies the
+// client that CreateClient returns.
+var VerifClient func(conf types.NetConf) client.Interface
+
+func verifClientHook(conf types.NetConf) client.Interface {
+	if VerifClient != nil {
+		return VerifClient(conf)
+	}
+	return nil
+}
